@@ -102,8 +102,9 @@ def parse_config_file(args_dict):
 
     # First path.
     path = term.pop('path')
+    path_file = all_files.pop('path', '.')
     if path is None:
-        path = all_files.pop('path', '.')
+        path = path_file
     path = os.path.abspath(path)
 
     # Initiate files dict with defaults.
